@@ -264,6 +264,28 @@ def discharge(ctx, body, p, ev, kind):
     return None
 
 
+_REQ_CACHE = {}
+
+
+def required_rules_failing(ctx, prop, rules):
+    """violation keys of the named rules of another property's module, evaluated on the same facts"""
+    ck = (id(ctx.fx), prop)
+    if ck not in _REQ_CACHE:
+        import importlib
+        from check import Ctx
+        mod = importlib.import_module("rules." + prop.lower())
+        sub = Ctx(prop, ctx.tier, ctx.fx)
+        try:
+            mod.run(sub)
+            _REQ_CACHE[ck] = [r for r in sub.records if r.verdict == "violation"]
+        except Exception as e:   # a crash of the other module is not evidence that its rules hold
+            _REQ_CACHE[ck] = None
+    recs = _REQ_CACHE[ck]
+    if recs is None:
+        return ["<%s rules could not be evaluated>" % prop]
+    return [r.key for r in recs if any(r.rule == x or r.rule.startswith(x) for x in rules)]
+
+
 def load_exemptions():
     with open(os.path.join(os.path.dirname(HERE), "panic_exemptions.json")) as f:
         return json.load(f)["exemptions"]
@@ -330,6 +352,14 @@ def run(ctx):
                 ctx.ok("PANIC", key, inst, "discharged on %d path(s) by %s" % (len(evs), ",".join(sorted(rules))), body.span_of(bb))
                 continue
             ex = [x for x in exemptions if x["item"] == key and x["fingerprint"] == fp]
+            if ex and ex[0].get("requires"):
+                # the invariant rests on another property's structural rules: they must hold on this tree, or the exemption lapses
+                rq = ex[0]["requires"]
+                bad = required_rules_failing(ctx, rq["property"], rq["rules"])
+                if bad:
+                    ctx.violation("PANIC", key, inst, "the exemption for this %s rests on %s rules %s, which fail on this tree (%s): the invariant `%s` is no longer established"
+                                  % (kind, rq["property"], rq["rules"], bad[:2], ex[0]["invariant"][:160]), body.span_of(bb))
+                    continue
             if ex:
                 used_ex.add((key, fp))
                 ctx.ok("PANIC", key, inst, "reasoned exemption: " + ex[0]["invariant"], body.span_of(bb), nontrivial=False)
@@ -438,7 +468,7 @@ def termination(ctx):
                         worst = named(body, v)[:120]
                 # the exit test compares the cursor with the length
                 ex = [p for p in paths if p.end[0] == "return"]
-                okx = bool(ex) and all(any(isinstance(c.term, tuple) and c.term[0] == "binop" and c.term[1] == "Eq" and is_call(c.term[3], "str>::len") for c in p.conds()) for p in ex)
+                okx = bool(ex) and all(any(isinstance(c.term, tuple) and c.term[0] == "binop" and c.term[1] == "Eq" and is_call(c.term[3], "str>::len", "String::len") for c in p.conds()) for p in ex)
                 ctx.check(ok and okx, "TERM", key, "loop[registered:cursor-advances]", "every back-edge path advances the cursor by a positive amount (%d paths)" % len(backs),
                           "the scanning loop has a back-edge path that does not advance the cursor by a positive amount (%s): the tokeniser can loop forever" % worst, body.span_of(h))
                 continue
